@@ -181,9 +181,20 @@ Theorem C15_failed_flush_still_notifies : forall (s : ustate V) i u ups f, UInv 
   has_install (un u) ups = true -> flag_of (st (fst (step s (EApply ups f)))) i = true.
 Proof. exact (@apply_failed_flush_notifies V). Qed.
 
+(* ---- a failed NewUpdater disturbs nobody (round 6): when the builder of a NewUpdater call fails, the store - every
+   watcher registration and slot of every name included - and every other updater are exactly what they were; so
+   every theorem above keeps applying to the other updaters of the same secret (their registrations are still
+   there: C15_inv, C15_get_newest).  What the code does today with the failed call's OWN registration: nothing -
+   it stays behind as a slot nobody reads (modelled: phase PDead, watcher kept). *)
+Theorem C15_failed_newupdater_disturbs_nobody : forall (s : ustate V) j,
+  st (fst (step s (EBuilt j false))) = st s /\
+  forall i, i <> j -> nth_error (us (fst (step s (EBuilt j false)))) i = nth_error (us s) i.
+Proof. exact (@failed_new_disturbs_nobody V). Qed.
+
 End C15.
 
 Print Assumptions C15_init.
+Print Assumptions C15_failed_newupdater_disturbs_nobody.
 Print Assumptions C15_reachable.
 Print Assumptions C15_inv.
 Print Assumptions C15_get_newest.
